@@ -36,7 +36,7 @@ class Noh2(ExactSolver):
 
     def _run(self, r, t):
 
-        if t > 1:
+        if t >= 1:
             raise ValueError("The time t must be less than 1")
         
         delta = self.geometry
